@@ -166,10 +166,8 @@ func (k Keeper) ValidateValidatorFinishUnstaking(ctx sdk.Ctx, validator types.Va
 	if !validator.IsUnstaking() {
 		return types.ErrValidatorStatus(k.codespace)
 	}
-	// sanity check
-	if validator.StakedTokens.LT(sdk.NewInt(k.MinimumStake(ctx))) {
-		return types.ErrValidatorStatus(k.codespace)
-	}
+	// the stake is returned whatever the current minimum is: a minimum raised by governance while the
+	// validator was unstaking must not leave it unstaking forever with its funds locked
 	return nil
 }
 
